@@ -105,6 +105,45 @@ type world struct {
 	diag               []string
 	unknownMutexFields map[fieldKey]bool
 	fieldWrites        map[string]map[string]string // function -> loc term -> source position
+	pendingLits        []pendingLit                 // literals that call other functions: judged once everything is translated
+}
+
+// pendingLit is a function literal (not a registered handler) whose own body only reads shared fields
+// and calls functions; whether those functions are themselves free of lock operations and writes is
+// known only after the whole program has been translated.
+type pendingLit struct {
+	key, msg string
+}
+
+// resolvePendingLits: a literal that transitively reaches a lock operation, a write or an unsupported
+// construct is outside the abstraction (its effects happen where it is CALLED, which the translation
+// does not track); one that only reaches reads is accounted for at the place it is written.
+func (w *world) resolvePendingLits() {
+	for _, pl := range w.pendingLits {
+		seen := map[string]bool{}
+		bad := false
+		var visit func(k string)
+		visit = func(k string) {
+			if seen[k] || bad {
+				return
+			}
+			seen[k] = true
+			for _, a := range w.out[k] {
+				switch {
+				case strings.HasPrefix(a, maybeRd):
+				case strings.HasPrefix(a, "Call "):
+					visit(strings.ReplaceAll(strings.Trim(strings.TrimPrefix(a, "Call "), `"`), `""`, `"`))
+				default:
+					bad = true
+				}
+			}
+		}
+		visit(pl.key)
+		if bad {
+			w.out[pl.key] = append([]string{"Unsupported " + coqStr(pl.msg)}, w.out[pl.key]...)
+			w.diag = append(w.diag, pl.key+": "+pl.msg)
+		}
+	}
 }
 
 func (w *world) addEntry(k string) {
@@ -176,6 +215,7 @@ func main() {
 		}
 	}
 	sort.Strings(w.entries)
+	w.resolvePendingLits()
 	w.resolveFieldReads()
 
 	var sb strings.Builder
@@ -1210,7 +1250,18 @@ func (t *tr) expr(e ast.Expr) {
 	case *ast.FuncLit:
 		// a function literal that is not a registered handler: allowed only if it has no effects
 		k := t.literal(x, "")
-		if effects(t.w.out[k]) > 0 {
+		onlyCalls := true
+		for _, a := range t.w.out[k] {
+			if !strings.HasPrefix(a, maybeRd) && !strings.HasPrefix(a, "Call ") {
+				onlyCalls = false
+			}
+		}
+		if effects(t.w.out[k]) > 0 && onlyCalls {
+			// reads and calls only: decided by resolvePendingLits once the callees are translated
+			p := t.w.fset.Position(x.Pos())
+			t.w.pendingLits = append(t.w.pendingLits, pendingLit{k, fmt.Sprintf("%s:%d: function literal with effects outside HandleFunc", filepath.Base(p.Filename), p.Line)})
+			t.emit("Call " + coqStr(k))
+		} else if effects(t.w.out[k]) > 0 {
 			t.unsupported(x.Pos(), "function literal with effects outside HandleFunc")
 		} else if len(t.w.out[k]) > 0 {
 			t.emit("Call " + coqStr(k)) // only reads of shared fields: counted where the literal is written
